@@ -8,6 +8,7 @@ pub mod c08;
 pub mod c09;
 pub mod c10;
 pub mod c11;
+pub mod c12;
 pub mod c13;
 pub mod c16;
 
@@ -27,7 +28,9 @@ pub fn cells_of(prop: &str, tier: Tier) -> Option<(Vec<CellPlan>, &'static str)>
         "C07" => (c07::cells(tier), c07::RULE),
         "C08" => (c08::cells(tier), c08::RULE),
         "C09" => (c09::cells(tier), c09::RULE),
+        "C10" => (c10::cells(tier), c10::RULE),
         "C11" => (c11::cells(tier), c11::RULE),
+        "C12" => (c12::end_to_end_cells(tier), c12::RULE),
         "C13" => (c13::cells(tier), c13::RULE),
         "C16" => (c16::cells(tier), c16::RULE),
         _ => return None,
@@ -40,6 +43,9 @@ pub fn run(prop: &str, tier: Tier, budget: f64, out: &mut Outcome) -> Result<(),
         "channel contracts of channels.rs: no duplication or corruption; reliable-ordered FIFO; unreliable may drop/reorder/delay".into(),
         "bounds: small entity/client pools, rounds and deviations as listed per cell".into(),
     ];
+    if prop == "C12" {
+        return c12::run(tier, budget, out);
+    }
     if let Some((plans, rule)) = cells_of(prop, tier) {
         out.rule = rule.into();
         return run_cells(out, plans, budget, 12);
@@ -57,6 +63,9 @@ pub fn replay(path: &str) -> i32 {
     };
     let doc: serde_json::Value = serde_json::from_str(&text).expect("replay file is JSON");
     let prop = doc["property"].as_str().unwrap();
+    if doc["kind"].as_str() == Some("struct") {
+        return c12::replay_struct(&doc);
+    }
     let cell_name = doc["cell"].as_str().unwrap();
     let choices: Vec<u16> = doc["choices"].as_array().unwrap().iter().map(|v| v.as_u64().unwrap() as u16).collect();
     for tier in [Tier::Quick, Tier::Thorough] {
